@@ -223,6 +223,38 @@ func (m *M) check(b, route string, a Args, pre *snapshot, r *world.Result) {
 		}
 	}
 
+	// ---------------- C05: confirm / recover links ---------------------------------------------
+	if (route == "recend" || route == "confirm") && r.Panic == "" && !r.Injected {
+		raw, derr := base64.URLEncoding.DecodeString(a.Token)
+		for pid, u0 := range pre.users {
+			u1 := m.W.Store.Users[pid]
+			if u1 == nil {
+				continue
+			}
+			if route == "recend" {
+				genuine := derr == nil && len(raw) == 64 && u0.RecoverSelector != "" && u0.RecoverSelector == sha64(string(raw[:32])) &&
+					u0.RecoverVerifier == sha64(string(raw[32:])) && !pre.now.After(u0.RecoverExpiry)
+				changed := u1.Password != u0.Password || u1.RecoverSelector != u0.RecoverSelector || u1.RecoverVerifier != u0.RecoverVerifier
+				if changed && !genuine {
+					m.violate("C05", "recover-accepted-bad-token", fmt.Sprintf("a recovery submission that is not the genuine unexpired token of %q changed that account", pid), b)
+				}
+				if genuine && u1.Password != u0.Password && (u1.RecoverSelector != "" || u1.RecoverVerifier != "") {
+					m.violate("C05", "recover-not-spent", "an accepted recovery token is still outstanding", b)
+				}
+			} else {
+				genuine := derr == nil && len(raw) == 64 && u0.ConfirmSelector != "" && u0.ConfirmSelector == sha64(string(raw[:32])) &&
+					u0.ConfirmVerifier == sha64(string(raw[32:]))
+				changed := u1.Confirmed != u0.Confirmed || u1.ConfirmSelector != u0.ConfirmSelector || u1.ConfirmVerifier != u0.ConfirmVerifier
+				if changed && !genuine && cfg.Has("confirm") {
+					m.violate("C05", "confirm-accepted-bad-token", fmt.Sprintf("a confirmation submission that is not the genuine token of %q changed that account", pid), b)
+				}
+				if genuine && cfg.Has("confirm") && m.validOracle("confirm", map[string]string{"cnf": a.Token}) && (!u1.Confirmed || u1.ConfirmSelector != "") {
+					m.violate("C05", "confirm-rejected-genuine", fmt.Sprintf("the genuine confirmation token of %q was not accepted (or not spent)", pid), b)
+				}
+			}
+		}
+	}
+
 	// ---------------- C12: accepted one-time values are removed durably ---------------------
 	if route == "otplogin" && r.Panic == "" && !r.Injected {
 		if u := pu(a.PID); u != nil && u.OTPs != "" {
